@@ -160,7 +160,12 @@ pub fn gen_case(r: &mut Rng, out: &mut String) {
                             jitter(r, inside[inside.len() - 1 - k])
                         }
                         10..=12 => hi.saturating_add(r.below(3) * (P32 / 2) + r.below(100)), // after the back
-                        13 => lo.saturating_sub(*r.pick(&[1u64, 70000, P32])),               // below the front
+                        13 => match r.below(3) {
+                            // below the front: anywhere, the last bit of the 64-bit word below the front's word, one word lower
+                            0 => lo.saturating_sub(*r.pick(&[1u64, 70000, P32])),
+                            1 => (lo & !63).saturating_sub(1),
+                            _ => lo.saturating_sub(*r.pick(&[64u64, 65, 127, 128])),
+                        },
                         14 => *r.pick(&[u64::MAX, u64::MAX, 0]),
                         _ => {
                             let mut v = special(r, &pks, &marks);
